@@ -265,6 +265,33 @@ func init() {
 		defer mu.Unlock()
 		return []int{unlocked, overlaps, stuck, frames}
 	})
+	// uisub: State.Subcommand(name, argument) on a fresh State, as main.go calls it.  args: name, argument, nfeeds names...
+	// result: 0 accepted / 1 refused with an error / 2 did not return
+	register("uisub", func(a []int) []int {
+		r := &reader{toks: a}
+		name := r.text()
+		arg := r.text()
+		feeds := map[string][]string{}
+		for n := r.next(); n > 0; n-- {
+			feeds[r.text()] = []string{"gopher://dead.invalid/x"}
+		}
+		saved := config.Parsed.Feeds
+		config.Parsed.Feeds = feeds
+		defer func() { config.Parsed.Feeds = saved }()
+		s := ui.NewState(60, 20, func(string) {})
+		done := make(chan error, 1)
+		go func() { done <- s.Subcommand(name, arg) }()
+		select {
+		case err := <-done:
+			time.Sleep(20 * time.Millisecond) // let the goroutine it started read the configuration before it is restored
+			if err != nil {
+				return []int{1}
+			}
+			return []int{0}
+		case <-time.After(5 * time.Second):
+			return []int{2}
+		}
+	})
 	// uipub: the UI over REAL pub items built from one JSON document (everything embedded, nothing fetched): posts titled
 	// "p<N>", actors named "a<N>", activities around them.  args: preload, width, height, json text, constructor
 	// (0 post, 1 actor, 2 activity), then the abstract world (read by the model only) ..., keys.
